@@ -117,7 +117,7 @@ def _gen_histories(rng, tier):
     quick = tier == "quick"
     out = []
     warm = lambda edits: [([rng.randrange(64) for _ in range(3)] if rng.random() < 0.5 else []) for _ in edits]
-    kinds = ("move", "move", "reattach", "reorder", "failmove")
+    kinds = ("move", "move", "reattach", "reorder", "failmove", "hookmove", "hookkids")
     # corpus: a refused re-parenting of a LEFT / RIGHT child of a BinaryNode (full target, loop), then all reads
     full = ("1", {}, ("2", {}, ("4", {}, None, None), None), ("3", {}, ("5", {}, None, None), ("6", {}, None, None)))
     for e in (["bfail", 1, 3], ["bfail", 2, 3], ["bfail", 4, 3], ["bfail", 1, 2], ["bfail", 5, 0], ["bfail", 6, 0]):
@@ -311,8 +311,9 @@ def _build_hist(d):
         apply = H.bapply_real
     else:
         objs, roots = [], []
+        HNode, HBase = H.hooked_classes()     # hooks are no-ops except during the "hook…" edits
         def go(s, parent):
-            n = BaseNode() if d.get("cls") == "base" else Node(s[0])
+            n = HBase() if d.get("cls") == "base" else HNode(s[0])
             objs.append(n)
             if parent is not None:
                 n.parent = parent
